@@ -314,3 +314,35 @@ func zzSameState(w *zzWorld, extraNames ...string) bool {
 	}
 	return ok
 }
+
+// zzSameListing: what the API reports - the symbol listings of every scope - is
+// the key set of that scope's dictionary in the model (zzSameState looks at the
+// representation; a listing kept beside the table could differ from it).
+func zzSameListing(w *zzWorld) bool {
+	for i, e := range w.real {
+		m := w.model[i]
+		vs := e.GetValueSymbols()
+		if len(vs) != len(m.vals) {
+			return false
+		}
+		seen := map[string]bool{}
+		for _, n := range vs {
+			if _, has := m.vals[n]; !has || seen[n] {
+				return false
+			}
+			seen[n] = true
+		}
+		ts := e.GetTypeSymbols()
+		if len(ts) != len(m.types) {
+			return false
+		}
+		seenT := map[string]bool{}
+		for _, n := range ts {
+			if _, has := m.types[n]; !has || seenT[n] {
+				return false
+			}
+			seenT[n] = true
+		}
+	}
+	return true
+}
